@@ -254,6 +254,195 @@ def rule_array_elements(run):
     run.end()
 
 
+def rule_array_getitem(run):
+    run.begin(
+        "C13.arrayget",
+        "a constant-index view of an Array value is the stored element whenever one is stored (whatever the element "
+        "type, enumerations included); only positions without a stored element get a default-constructed element; "
+        "indices outside [0, count) are rejected (abstract evaluation of Array.__getitem__)",
+        floor=30,
+    )
+    from ..absint import Interp, Reject
+
+    class _EnumBase:
+        pass
+
+    class _Stored:
+        def __init__(self, i):
+            self.i = i
+
+    class _Default:
+        def __init__(self, *a):
+            self.a = a
+
+    class _EnumT(_EnumBase):
+        _member_map_ = {"A": "member-A", "B": "member-B"}
+
+        def __init__(self, *a):
+            self.a = a
+
+    class _Self:
+        pass
+
+    ar = run.idx.mod(AR)
+    f = ar.func("Array.__getitem__")
+    for et_name, et in (("plain", _Default), ("enum", _EnumT)):
+        for count in (1, 3):
+            for nstored in (None, 0, 1, count):
+                if nstored is not None and nstored > count:
+                    continue
+                for index in range(-1, count + 1):
+                    me = _Self()
+                    me._count_ = count
+                    me._elemtype_ = et
+                    me._value = None if nstored is None else [_Stored(i) for i in range(nstored)]
+                    prims = {"issubclass": lambda c, b: isinstance(c, type) and isinstance(b, type) and issubclass(c, b), "Enum": _EnumBase, "len": len,
+                             "isinstance": lambda v, t: isinstance(v, t) if isinstance(t, (type, tuple)) else False, "IndexError": IndexError, "list": list}
+                    try:
+                        got = Interp(ar, prims).call_function("Array.__getitem__", me, index)
+                    except Reject:
+                        got = "rejected"
+                    if index < 0 or index >= count:
+                        ok, exp = got == "rejected", "rejected"
+                    elif nstored and index < nstored:
+                        ok, exp = got is me._value[index], f"the stored element #{index}"
+                    else:
+                        ok, exp = isinstance(got, et), f"a default {et_name} element"
+                    desc = f"stored#{got.i}" if isinstance(got, _Stored) else type(got).__name__.strip("_") if not isinstance(got, str) else got
+                    run.ob(ok, "Array.__getitem__", file=ar.rel, line=f.node.lineno, detail=f"{et_name},count={count},stored={nstored},index={index}", expected=exp, found=desc,
+                           sample=(et_name, count, nstored, index) == ("enum", 3, 3, 1))
+    run.end()
+
+
+def rule_ref_views(run):
+    run.begin(
+        "C13.ref",
+        "std.Ref[T](obj) for a vector type T is the view of obj of exactly the requested kind (Ref[BitVector[n]] of an "
+        "Unsigned/Signed object is its .bitvector view, not the numeric object itself) over the same storage; without T "
+        "the kind of obj is kept (abstract evaluation of _Ref.__call__ over the kind lattice)",
+        floor=12,
+    )
+    from ..absint import Interp, Reject
+
+    class _BV:
+        def __init__(self, root=None):
+            self.root = root or self
+
+        signed = property(lambda self: _S(self.root))
+        unsigned = property(lambda self: _U(self.root))
+        bitvector = property(lambda self: _BV(self.root))
+
+    class _U(_BV):
+        pass
+
+    class _S(_BV):
+        pass
+
+    class _CB:
+        pass
+
+    class _TQB:
+        @staticmethod
+        def decay(x):
+            return x
+
+    class _Fail:
+        @staticmethod
+        def raise_if(cond, *a):
+            if cond:
+                raise Reject("RefQualifierFail")
+
+    class _Me:
+        pass
+
+    cu = run.idx.mod("cohdl/std/_core_utility.py")
+    f = cu.func("_Ref.__call__")
+    kinds = {"BitVector": _BV, "Unsigned": _U, "Signed": _S}
+    for tname, T in [*kinds.items(), ("none", None)]:
+        for aname, A in kinds.items():
+            arg = A()
+            me = _Me()
+            me._T = T
+            prims = {"is_primitive_type": lambda t: True, "subclass_check": lambda c, b: issubclass(c, b), "instance_check": lambda v, t: isinstance(v, t), "BitVector": _BV, "Signed": _S,
+                     "Unsigned": _U, "CohdlBool": _CB, "bool": bool, "TypeQualifierBase": _TQB(), "type": type, "len": len, "_check_type_qualifier_params": lambda k: True,
+                     "RefQualifierFail": _Fail(), "issubclass": issubclass, "isinstance": lambda v, t: isinstance(v, t) if isinstance(t, (type, tuple)) else False, "tuple": tuple, "list": list}
+            try:
+                got = Interp(cu, prims).call_function("_Ref.__call__", me, arg)
+            except Reject as e:
+                got = f"rejected: {e}"
+            want = T or A
+            ok = isinstance(got, _BV) and type(got) is want and got.root is arg
+            nm = {_BV: "BitVector", _U: "Unsigned", _S: "Signed"}
+            found = got if isinstance(got, str) else f"{nm.get(type(got), type(got).__name__)} object" + ("" if not isinstance(got, _BV) or got.root is arg else " over OTHER storage")
+            run.ob(ok, "_Ref.__call__", file=cu.rel, line=f.node.lineno, detail=f"Ref[{tname}]({aname})", expected=f"{nm[want]} view of the argument", found=found,
+                   sample=(tname, aname) == ("BitVector", "Unsigned"))
+    run.end()
+
+
+def rule_own_storage(run):
+    run.begin(
+        "C13.own",
+        "only VIEWS share storage: a vector constructor is handed a span of bit storage (which it adopts as its own "
+        "storage) only by the object's own view methods (`T(self._value...)`); the storage of ANOTHER object (an "
+        "argument's `._value`) is never passed to a constructor, so an object built FROM a value has its own bits and its "
+        "own root (flow of foreign `._value` spans into constructor calls, per function)",
+        floor=5,
+    )
+    n_view = 0
+    for rel in (BV, UN, SI):
+        m = run.idx.mod(rel)
+        for q, f in m.functions.items():
+            if ".<locals>." in q:
+                continue
+            params = [a.arg for a in f.node.args.posonlyargs + f.node.args.args]
+            me = params[0] if params and params[0] in ("self", "cls") else None
+            foreign = {}    # local name -> line where it was bound to another object's storage
+
+            def is_foreign(e):
+                for x in ast.walk(e):
+                    if isinstance(x, ast.Attribute) and x.attr == "_value" and not (isinstance(x.value, ast.Name) and x.value.id == me):
+                        return True
+                    if isinstance(x, ast.Name) and x.id in foreign:
+                        return True
+                return False
+
+            def direct(e):
+                """the expression IS (a sub-span of) foreign storage - not something computed from it"""
+                while isinstance(e, ast.Subscript):
+                    e = e.value
+                if isinstance(e, ast.Name):
+                    return e.id in foreign
+                return isinstance(e, ast.Attribute) and e.attr == "_value" and not (isinstance(e.value, ast.Name) and e.value.id == me)
+
+            stmts = sorted((a for a in walk_local(f.node) if isinstance(a, ast.Assign)), key=lambda a: a.lineno)
+            for _round in range(2):
+                for a in stmts:
+                    if len(a.targets) == 1 and isinstance(a.targets[0], ast.Name) and direct(a.value):
+                        foreign.setdefault(a.targets[0].id, a.lineno)
+            for c in walk_local(f.node):
+                if not isinstance(c, ast.Call):
+                    continue
+                fn = c.func
+                ctor = (
+                    (isinstance(fn, ast.Subscript) and dotted(fn.value) in ("BitVector", "Unsigned", "Signed"))
+                    or (isinstance(fn, ast.Call) and dotted(fn.func) == "type")
+                    or (isinstance(fn, ast.Attribute) and fn.attr == "__init__" and isinstance(fn.value, ast.Call) and dotted(fn.value.func) == "super")
+                    or dotted(fn) in ("BitVector", "Unsigned", "Signed", "cls")
+                )
+                if not ctor:
+                    continue
+                for a in c.args[:1] if not (dotted(fn) in ("BitVector", "Unsigned", "Signed")) else c.args[1:2]:
+                    own = any(isinstance(x, ast.Attribute) and x.attr == "_value" and isinstance(x.value, ast.Name) and x.value.id == me for x in ast.walk(a))
+                    if own and not is_foreign(a):
+                        n_view += 1
+                        run.ob(True, f"{rel.split('/')[-1]}::{q}", file=rel, line=c.lineno, detail="view-of-self", expected="own storage", found=src(a)[:50], sample=n_view == 1)
+                    if direct(a):
+                        run.ob(False, f"{rel.split('/')[-1]}::{q}", file=rel, line=c.lineno, detail="adopts-foreign-storage",
+                               expected="a constructor receives values (int / str / vector objects), which it copies bit by bit",
+                               found=f"`{src(c)[:60]}` hands the constructor the storage span of another object: the new object aliases it")
+    run.end()
+
+
 def rule_alias(run):
     from . import c03
     c03.rule_alias(run)   # views of a locally constructed signal are redirected to the alias as well (keyed by root)
@@ -264,7 +453,7 @@ def rule_span_width(run):
     c05.rule_backend_sites(run)     # a vector constructed over a span of storage has exactly that many bits (slice views cannot reach beyond the vector)
 
 
-RULES = [rule_cache, rule_own_cache, rule_lattice, rule_value_views, rule_views, rule_array_elements, rule_alias, rule_span_width]
+RULES = [rule_cache, rule_own_cache, rule_lattice, rule_value_views, rule_views, rule_array_elements, rule_array_getitem, rule_ref_views, rule_own_storage, rule_alias, rule_span_width]
 LEVEL = "other"
 EXPLANATION = (
     "Canonicity and the subtype lattice are decided from the three metaclass __getitem__ functions for all parameters "
